@@ -598,7 +598,7 @@ theorem loadAttrs_doc_v (sub : Cls → Obj → JVal) (o : Obj)
   clear hg g0 g1 g2 g3
   rcases A with _ | ⟨⟨k0, v0⟩, _ | ⟨⟨k1, v1⟩, _ | ⟨⟨k2, v2⟩, _ | ⟨⟨k3, v3⟩, _ | ⟨x, rest⟩⟩⟩⟩⟩ <;>
     simp only [Cls.attrs, Gen.vResultAttrs, attrsOK, Bool.false_eq_true, Bool.and_eq_true,
-      decide_eq_true_eq, and_false, false_and] at hA
+      decide_eq_true_eq, and_false] at hA
   obtain ⟨⟨rfl, -⟩, ⟨rfl, -⟩, ⟨rfl, -⟩, ⟨rfl, -⟩, -⟩ := hA
   simp only [lookup, String.reduceEq, if_true, if_false, Option.getD_some] at hF ⊢
   cases v1 <;> cases v2 <;> cases v3 <;> simp only [Bool.false_eq_true] at hF
@@ -743,7 +743,7 @@ theorem join_field (a : Str) :
   by_cases h : a.isEmpty = true
   · simp only [h, if_true, joinWith]
     exact (List.isEmpty_iff.1 h).symm
-  · simp only [h, if_false]
+  · simp only [h]
     exact joinWith_splitOn ',' a
 
 theorem map_toList_ofList (x : List Str) : (x.map String.ofList).map String.toList = x := by
@@ -984,7 +984,7 @@ theorem load_lists (hL : listsOK wfs cls o = true) :
     have e : List.map (inv (cls.elem a) ∘ sub (cls.elem a)) (o.getList a) = o.getList a :=
       map_id_of (fun y hy => hinv _ _ (hwf y hy))
     by_cases he : (o.getList a).isEmpty = true
-    · simp [he, truthy, List.isEmpty_iff.1 he]
+    · simp [truthy, List.isEmpty_iff.1 he]
     · simp [he, listJ, truthy, e]
   rw [List.map_congr_left hpt, ← hk]
   exact map_lookup_self o.lists [] (by rw [show keys o.lists = cls.serList from hk]; exact nd_lists cls)
@@ -1022,7 +1022,7 @@ theorem load_dicts (hD : dictsOK wfs cls o = true) :
       obtain ⟨h1, h2⟩ := hent kx hkx
       simp only [Function.comp, hinv _ _ h2, ← h1]
     by_cases he : (o.getDict ak.1).isEmpty = true
-    · simp [he, truthy, List.isEmpty_iff.1 he]
+    · simp [truthy, List.isEmpty_iff.1 he]
     · simp only [he, Bool.false_eq_true, if_false, dictJ, truthy, List.isEmpty_map, Bool.not_false,
         if_true, List.map_map, e]
       exact dictOf_nodup _ hnd
@@ -1124,5 +1124,80 @@ theorem fromDictN_toDictN (n : Nat) : ∀ (cls : Cls) (o : Obj), wfN n cls o = t
 /-- Loading a document written by `to_dict` restores the object exactly. -/
 theorem fromDict_toDict (cls : Cls) (o : Obj) (h : WFObj cls o) : fromDict cls (toDict cls o) = o :=
   fromDictN_toDictN depth cls o h
+
+/-! ## The fuel is enough: `toDict` / `fromDict` satisfy the recursive equations of the Python code -/
+
+/-- nesting height of a class -/
+def Cls.rank : Cls → Nat
+  | .result => 3
+  | .funcLoops => 2
+  | .loopResult => 1
+  | _ => 0
+
+theorem rank_elem (c : Cls) :
+    ∀ k ∈ c.serAttrs ++ c.serList ++ c.dictNames, (c.elem k).rank < c.rank := by
+  cases c <;> decide
+
+theorem rank_lt_depth (c : Cls) : c.rank < depth := by cases c <;> decide
+
+theorem toDict1_congr {sub sub' : Cls → Obj → JVal} (cls : Cls) (o : Obj)
+    (h : ∀ k ∈ cls.serAttrs ++ cls.serList ++ cls.dictNames, sub (cls.elem k) = sub' (cls.elem k)) :
+    toDict1 sub cls o = toDict1 sub' cls o := by
+  have h1 : (cls.serAttrs.map fun k => (k, serJ sub cls o k))
+      = cls.serAttrs.map fun k => (k, serJ sub' cls o k) :=
+    List.map_congr_left fun k hk => by simp only [serJ, h k (by simp [hk])]
+  have h2 : ((cls.serList.filter fun k => !(o.getList k).isEmpty).map fun k => (k, listJ sub cls o k))
+      = (cls.serList.filter fun k => !(o.getList k).isEmpty).map fun k => (k, listJ sub' cls o k) :=
+    List.map_congr_left fun k hk => by simp only [listJ, h k (by simp [(List.mem_filter.1 hk).1])]
+  have h3 : ((cls.dictNames.filter fun n => !(o.getDict n).isEmpty).map fun n => (n, dictJ sub cls o n))
+      = (cls.dictNames.filter fun n => !(o.getDict n).isEmpty).map fun n => (n, dictJ sub' cls o n) :=
+    List.map_congr_left fun k hk => by simp only [dictJ, h k (by simp [(List.mem_filter.1 hk).1])]
+  rw [toDict1_eq, toDict1_eq]
+  unfold docKvs
+  rw [h1, h2, h3]
+
+theorem fromDict1_congr {sub sub' : Cls → JVal → Obj} (test : JVal → Bool) (cls : Cls) (doc : JVal)
+    (h : ∀ k ∈ cls.serAttrs ++ cls.serList ++ cls.dictNames, sub (cls.elem k) = sub' (cls.elem k)) :
+    fromDict1 test sub cls doc = fromDict1 test sub' cls doc := by
+  unfold fromDict1
+  apply obj_ext
+  · rfl
+  · rfl
+  · exact List.map_congr_left fun k hk => by simp only [h k (by simp [hk])]
+  · exact List.map_congr_left fun ak hak => by
+      simp only [h ak.1 (by simp [Cls.dictNames, List.mem_map_of_mem hak])]
+  · exact List.map_congr_left fun k hk => by simp only [h k (by simp [hk])]
+
+theorem toDictN_succ (n : Nat) : ∀ cls : Cls, cls.rank < n → toDictN (n + 1) cls = toDictN n cls := by
+  induction n with
+  | zero => intro cls h; cases h
+  | succ n ih =>
+    intro cls h
+    funext o
+    show toDict1 (toDictN (n + 1)) cls o = toDict1 (toDictN n) cls o
+    exact toDict1_congr cls o fun k hk => ih _ (by have := rank_elem cls k hk; omega)
+
+theorem fromDictN_succ (test : JVal → Bool) (n : Nat) :
+    ∀ cls : Cls, cls.rank < n → fromDictN test (n + 1) cls = fromDictN test n cls := by
+  induction n with
+  | zero => intro cls h; cases h
+  | succ n ih =>
+    intro cls h
+    funext doc
+    show fromDict1 test (fromDictN test (n + 1)) cls doc = fromDict1 test (fromDictN test n) cls doc
+    exact fromDict1_congr test cls doc fun k hk => ih _ (by have := rank_elem cls k hk; omega)
+
+/-- `to_dict` as in Python: one level, calling itself on nested objects -/
+theorem toDict_unfold (cls : Cls) (o : Obj) : toDict cls o = toDict1 toDict cls o := by
+  show toDict1 (toDictN 3) cls o = toDict1 (toDictN 4) cls o
+  exact toDict1_congr cls o fun k hk =>
+    (toDictN_succ 3 _ (by have := rank_elem cls k hk; have := rank_lt_depth cls; simp [depth] at *; omega)).symm
+
+/-- `from_dict` as in Python: one level, calling itself on nested documents -/
+theorem fromDict_unfold (cls : Cls) (doc : JVal) :
+    fromDict cls doc = fromDict1 notNone fromDict cls doc := by
+  show fromDict1 notNone (fromDictN notNone 3) cls doc = fromDict1 notNone (fromDictN notNone 4) cls doc
+  exact fromDict1_congr notNone cls doc fun k hk =>
+    (fromDictN_succ notNone 3 _ (by have := rank_elem cls k hk; have := rank_lt_depth cls; simp [depth] at *; omega)).symm
 
 end Mwp.Result
